@@ -94,6 +94,47 @@ def gen2(files):
     return muts
 
 
+def gen3(files):
+    """Third operator set: iterator-chain edits (skip the first element, reverse), dropping one operand of
+    && / ||, swapping the two identifier arguments of a call, zip operands swapped."""
+    muts = []
+    for f in files:
+        src = open(os.path.join("/repo", f)).read()
+        cut = src.find("#[cfg(test)]\nmod ")
+        body = src if cut < 0 else src[:cut]
+        for ln, line in enumerate(body.split("\n")):
+            st = line.strip()
+            if not st or st.startswith(("//", "#[", "use ")):
+                continue
+            for m in re.finditer(r"\.iter\(\)(?!\.rev\(\))", line):
+                muts.append({"file": f, "line": ln + 1, "old": line, "new": line[:m.end()] + ".skip(1)" + line[m.end():], "rule": "iter().skip(1)"})
+                muts.append({"file": f, "line": ln + 1, "old": line, "new": line[:m.end()] + ".rev()" + line[m.end():], "rule": "iter().rev()"})
+            for m in re.finditer(r"\.enumerate\(\)", line):
+                muts.append({"file": f, "line": ln + 1, "old": line, "new": line[:m.end()] + ".skip(1)" + line[m.end():], "rule": "enumerate().skip(1)"})
+            m = re.search(r"^(\s*(?:\} else )?if )(.+?) (&&|\|\|) (.+?)( \{)$", line)
+            if m and "let " not in line:
+                muts.append({"file": f, "line": ln + 1, "old": line, "new": m.group(1) + m.group(2) + m.group(5), "rule": "drop second operand"})
+                muts.append({"file": f, "line": ln + 1, "old": line, "new": m.group(1) + m.group(4) + m.group(5), "rule": "drop first operand"})
+            m = re.search(r"\|(\w+)\| (.+?) (&&|\|\|) ([^)]+)\)", line)
+            if m:
+                a, b_ = m.group(2), m.group(4)
+                muts.append({"file": f, "line": ln + 1, "old": line, "new": line[:m.start(2)] + a + line[m.end(4):], "rule": "closure: drop second operand"})
+                muts.append({"file": f, "line": ln + 1, "old": line, "new": line[:m.start(2)] + b_ + line[m.end(4):], "rule": "closure: drop first operand"})
+            for m in re.finditer(r"\b(\w+)\((&?\w+(?:\.\w+)*), (&?\w+(?:\.\w+)*)\)", line):
+                if m.group(2) != m.group(3) and m.group(1) not in ("Some", "Ok", "Err", "vec", "write", "writeln", "format", "matches", "assert", "assert_eq", "fn", "if", "while", "loop", "bits"):
+                    muts.append({"file": f, "line": ln + 1, "old": line, "new": line[:m.start(2)] + m.group(3) + ", " + m.group(2) + line[m.end(3):], "rule": "swap call arguments"})
+            m = re.search(r"\.zip\((&?[\w.]+)\)", line)
+            if m:
+                pass
+    seen, out = set(), []
+    for m in muts:
+        k = (m["file"], m["line"], m["new"])
+        if k not in seen and m["new"] != m["old"]:
+            seen.add(k)
+            out.append(m)
+    return out
+
+
 def sh(cmd, cwd=None, env=None, timeout=900):
     """Run in its own process group with an address-space limit; on timeout kill the whole group
     (a mutant can loop forever or allocate without bound inside the test binary)."""
@@ -180,7 +221,7 @@ def main():
             files = a.pop(0).split(",")
         elif x == "--out":
             outp = a.pop(0)
-        elif x == "--ops2":
+        elif x in ("--ops2", "--ops3"):
             pass
     if files is None:
         files = []
@@ -189,7 +230,7 @@ def main():
                 if f.endswith(".rs") and f not in ("tests.rs",) and "/tests" not in dp:
                     files.append(os.path.relpath(os.path.join(dp, f), "/repo"))
         files.sort()
-    muts = gen2(files) if "--ops2" in sys.argv else gen(files)
+    muts = gen3(files) if "--ops3" in sys.argv else (gen2(files) if "--ops2" in sys.argv else gen(files))
     if limit:
         muts = muts[:limit]
     print("%d mutants over %d files" % (len(muts), len(files)))
